@@ -97,6 +97,9 @@ def gen_program_text(ch, names):
     """Statements using each name in 1-5 roles; labels/gotos come from the same population."""
     out = []
     n = len(names)
+    # Lua allows blanks inside ':: name ::'.  The pinned picotool only parses compact labels, so such a program
+    # is in C02's domain only for a tree that parses it to the end (precondition checked by the caller).
+    spaced_labels = ch.chance(16)
 
     def pick():
         return names[ch.below(n)]
@@ -119,7 +122,10 @@ def gen_program_text(ch, names):
             elif k == 5:
                 out.append(b'function ' + a + b'.' + nm + b'(' + b + b') end')
             elif k == 6:
-                out.append(b'::' + nm + b'::')
+                if spaced_labels:
+                    out.append(b'::' + ch.pick([b' ', b'  ', b'\t']) + nm + ch.pick([b' ', b'', b'  ']) + b'::')
+                else:
+                    out.append(b'::' + nm + b'::')
             elif k == 7:
                 out.append(b'goto ' + nm)
             elif k == 8:
@@ -267,6 +273,17 @@ def run(src, config, keep_body, keep, via, case):
     return check_pairs(pairs, config, keep, case, what)
 
 
+def fully_parsed(src):
+    """The property quantifies over programs picotool parses: evaluated against the tree under test."""
+    from pico8.lua import lua as plua
+    try:
+        l = plua.Lua.from_lines([src], version=8)
+    except Exception:
+        return False
+    sig = [i for i, t in enumerate(l.tokens) if type(t).__name__ not in ('TokSpace', 'TokNewline', 'TokComment')]
+    return not sig or l.root.end_pos > sig[-1]
+
+
 def build_case(seed, quick=True):
     ch = Choices(seed)
     size_class = ch.weighted([(80, 'small'), (80, 'medium'), (40, 'large'), (16, 'huge')])
@@ -295,6 +312,9 @@ def part_populations(ctx):
     def body(seed):
         src, names, config, keep_body, keep, via = build_case(seed, ctx.quick)
         case = {'source': src, 'config': config, 'keep': keep_body, 'via': via}
+        if not fully_parsed(src):
+            ctx.stats.exclude('not_parsed_to_the_end_by_this_tree')
+            return
         renamed, preserved, fwd = run(src, config, keep_body, keep, via, case)
         labs = ['cfg_' + config, 'via_' + via]
         n = len(fwd)
